@@ -801,7 +801,7 @@ Definition callee_is_expr (call : node) : bool :=
   end.
 
 (** The arms of [visit_mut_expr] / the overridden struct visitors, as a classification of the node. *)
-Inductive opclass := OBlock | OIdent | OBin | OAssign | OTpl | OCall | OOptChain | OUnary | OArrow | OOther.
+Inductive opclass := OBlock | OIdent | OBin | OAssign | OTpl | OCall | OOptChain | OUnary | OArrow | OLeaf | OOther.
 
 Definition classify (n : node) : opclass :=
   match n with
@@ -814,7 +814,7 @@ Definition classify (n : node) : opclass :=
   | Node (K KOptChain _ _) _ => OOptChain
   | Node (K KUnary _ _) _ => OUnary
   | Node (K KArrow _ _) _ => OArrow
-  | _ => OOther
+  | _ => if leaf n then OLeaf else OOther     (* literals, property names, this, super: nothing to visit *)
   end.
 
 (** Default traversal of a struct: visit every child with [rec]; two fields are not Expr positions
@@ -851,6 +851,7 @@ Definition struct_level_with (c : config) (rec : node -> ostate -> option (node 
   match classify n with
   | OIdent => Some (n, o_with_p (register_variable c n (o_p s)) s)
   | OBlock => Some (n, s)
+  | OLeaf => Some (n, s)
   | _ => default_visit_with rec n s
   end.
 
@@ -947,6 +948,7 @@ Fixpoint op_visit (c : config) (fuel : nat) (root : bool) (n : node) (s : ostate
           if is_op unary_op "delete" n then Some (n, s)
           else default_visit_with (op_visit c f root) n s
       | OArrow => Some (arrow_transform n, s)   (* not descended *)
+      | OLeaf => Some (n, s)
       | OOther => default_visit_with (op_visit c f root) n s
       end
   end.
